@@ -254,6 +254,24 @@ def run_tlc(
     return res
 
 
+def run_tlaps(module, timeout=600):
+    """Check the TLAPS proofs of spec/<module>.tla with tlapm (fresh cache in a scratch directory).
+    Returns dict(proved=<obligations>, wall_s).  Any unproved obligation or tool failure is a machinery failure:
+    a proof about the specification says nothing about PyDRex, so it can never be a violation."""
+    t0 = time.time()
+    with scratch("tlaps-") as d:
+        for f in SPEC.glob("*.tla"):
+            if f.stem in (module, "HistoryLaws"):
+                shutil.copy(f, d / f.name)
+        p = subprocess.run(["timeout", str(int(timeout)), "tlapm", "-I", "/opt/veriftools/tlapm/lib/tlapm/stdlib", f"{module}.tla"],
+                           cwd=d, capture_output=True, text=True)
+    out = p.stdout + p.stderr
+    m = re.search(r"All (\d+) obligations? proved", out)
+    if p.returncode != 0 or not m:
+        raise MachineryError(f"tlapm did not prove {module}: rc={p.returncode}\n" + "\n".join(out.splitlines()[-15:]))
+    return dict(proved=int(m.group(1)), wall_s=round(time.time() - t0, 2))
+
+
 def sany(module, cwd=None):
     p = subprocess.run(
         ["java", "-cp", TLA_JAR, "tla2sany.SANY", f"{module}.tla"],
